@@ -1,5 +1,5 @@
 (* C10 - ArrayBuilder: each build returns exactly the rows pushed since the last one. *)
-From Verif Require Import Take Take_proofs Builder_proofs.
+From Verif Require Import Take Take_proofs Builder_proofs Refine_proofs Wf_proofs DictBuilder DictBuilder_proofs.
 
 (* every successful push adds exactly one row (to every buffer, at every nesting level) *)
 Theorem C10_push_adds_one_row : forall v b b', WfB b -> push v b = Ok b' -> WfB b' /\ rows b' = S (rows b).
@@ -21,6 +21,60 @@ Theorem C10_history : forall f b0, build f = Some b0 ->
   Forall2 (fun batch out => one_shot b0 batch = Ok out) (batches cur ops) outs.
 Proof. exact history_batches. Qed.
 
+(* ... and that one-shot conversion decodes to exactly what the rows of the batch denote (C01): for
+   any history, the k-th build returns arrays whose logical content is the documented value of
+   each row pushed since the (k-1)-th build, in order - nothing from an earlier batch, nothing lost *)
+Theorem C10_history_content : forall f b0, build f = Some b0 -> names_ok f ->
+  forall ops outs, run_history b0 ops = Ok outs ->
+  Forall2 (fun batch out => exists lvs, Forall2 (fun r lv => interp f r = IOk lv) batch lvs /\ decode out = Some lvs)
+          (batches [] ops) outs.
+Proof.
+  intros f b0 Hb Hn ops outs Hrun.
+  pose proof (history_batches f b0 Hb ops [] b0 outs eq_refl Hrun) as HF.
+  destruct (build_wf _ _ Hb) as [Hw0 _]. destruct (build_shape _ _ Hb Hn) as [Hs0 Hc0].
+  clear Hrun. induction HF as [|batch out bs os Hone _ IH]; [constructor|constructor; [|exact IH]].
+  unfold one_shot in Hone. apply bind_ok in Hone as (b & Hfold & Hout). injection Hout as <-.
+  destruct (fold_push_sound f batch (Ok b0) b Hfold) as (b0' & E & Hrest). injection E as <-.
+  destruct (Hrest [] Hs0 Hw0 Hc0) as (lvs & HF2 & Hcb & _ & _). exists lvs. split; [exact HF2|exact Hcb].
+Qed.
+
+(* ---- per-batch state: the dictionary builder (string -> key table, key and value builders) ---- *)
+(* a build empties the table together with the children: what stays behind is the freshly constructed builder *)
+Theorem C10_dictionary_take_is_fresh : forall d k nl vk, dict_kinds d = Some (k, nl, vk) -> dict_reset d = dict_new k vk nl.
+Proof. exact dict_reset_fresh. Qed.
+
+(* any history over a dictionary column: the k-th build is the one-shot conversion of exactly the values
+   pushed since the (k-1)-th build; strings seen in an earlier batch are numbered afresh *)
+Theorem C10_dictionary_history : forall k nl vk ops cur d outs,
+  Forall (fun op => match op with DPush v => leaf_text_ok (strip v) | DBuild => True end) ops -> Forall (fun v => leaf_text_ok (strip v)) cur ->
+  dict_push_all (dict_new k vk nl) cur = Ok d -> dict_history d ops = Ok outs ->
+  Forall2 (fun batch out => dict_one_shot (dict_new k vk nl) batch = Ok out) (dict_batches cur ops) outs.
+Proof. exact dict_history_batches. Qed.
+
+(* within a batch: a pushed value is appended as its text (or null) and no earlier row changes,
+   whether the string was already in the table or not; every emitted key is inside the values *)
+Theorem C10_dictionary_push : forall v d d' lvs nm key val nullable kv kvals,
+  DInv d -> d_keys d = BdPrim key kv kvals -> vnull (mkField nm (DDict key val) nullable) kv ->
+  dict_content d = Some lvs -> dict_push v d = Ok d' ->
+  exists lv, interp (mkField nm (DDict key val) nullable) v = IOk lv /\ dict_content d' = Some (lvs ++ [lv]).
+Proof. exact dict_push_content. Qed.
+
+Theorem C10_dictionary_well_formed : forall strict d nm nullable, DInv d ->
+  forall k kv kvals vk offs data, d_keys d = BdPrim k kv kvals -> d_values d = BdUtf8 vk None offs data ->
+  vnull (mkField nm (DDict k vk) nullable) kv -> is_utf8_kind vk = true ->
+  wf_arr strict (mkField nm (DDict k vk) nullable) (dict_arr d) = true.
+Proof. exact dict_wf. Qed.
+
+Theorem C10_dictionary_invariant : forall v d d', leaf_text_ok (strip v) -> DInv d -> dict_push v d = Ok d' -> DInv d'.
+Proof. exact dict_push_inv. Qed.
+
+(* non-vacuity: repeated strings share a key; a build restarts the numbering *)
+Example C10_dictionary_example :
+  dict_history (dict_new I8 BUtf8 true) [DPush (VStr (b "x")); DPush (VStr (b "y")); DPush VNone; DPush (VStr (b "x")); DBuild; DPush (VStr (b "y")); DBuild]
+  = Ok [ADict (APrim (PInt I8) (Some {| bm_off := 0; bm_data := [11%N] |}) [0; 1; 0; 0]%Z) (ABytes BUtf8 None [0; 1; 2]%Z (b "xy"));
+        ADict (APrim (PInt I8) (Some {| bm_off := 0; bm_data := [1%N] |}) [0]%Z) (ABytes BUtf8 None [0; 1]%Z (b "y"))].
+Proof. vm_compute. reflexivity. Qed.
+
 Example C10_example :
   match build (mkField [] (DStruct [mkField (b "a") (DBytes BUtf8) true]) false) with
   | Some b0 =>
@@ -33,4 +87,7 @@ Example C10_example :
 Proof. vm_compute. reflexivity. Qed.
 
 Print Assumptions C10_take_is_fresh.
+Print Assumptions C10_dictionary_history.
+Print Assumptions C10_dictionary_well_formed.
+Print Assumptions C10_history_content.
 Print Assumptions C10_history.
